@@ -353,9 +353,19 @@ class Run:
             cache[key] = (crit, pf)
         return cache[key]
 
-    def add(self, k: int, negate: bool = False, critical: Optional[Dict[str, Any]] = None, no_ego_pose: bool = False) -> Any:
+    def add(self, k: int, negate: bool = False, critical: Optional[Dict[str, Any]] = None, no_ego_pose: bool = False, inverse_registry: bool = False) -> Any:
         f = self.scn.frames[k]
         gt = self.manager.get_ground_truth_now_frame(f.t)
+        if inverse_registry:
+            # the same ego pose registered in the other direction (map -> base_link): the registry answers both directions
+            # from either entry, so nothing in the evaluation may depend on which one was stored
+            import copy as _copy
+
+            from perception_eval.common.schema import FrameID as _F
+            from perception_eval.common.transform import TransformDict
+
+            gt = _copy.copy(gt)
+            gt.transforms = TransformDict([gt.transforms[(_F.BASE_LINK, _F.MAP)].inv()])
         if no_ego_pose:
             # an ego-frame ground-truth frame built without an ego pose (FrameGroundTruth(transforms=None)): positions are
             # already ego-relative, so nothing in the evaluation may depend on the registry being empty
